@@ -905,7 +905,9 @@ SUPPORT = {
 EXTREME = [0.0, 5e-324, 1e-300, 0.25, 0.5, 0.75, 1.0 - 2.0 ** -53]
 
 
-def dist_search(cls_name, want_exc=None):
+def dist_search(cls_name, want_exc=None, skip=(), met=None):
+    """``skip``: exception classes of draw() already accounted for (listed findings of the function): the search goes on past
+    them and notes in ``met`` which ones it saw."""
     import pydsol.core.distributions as D
     cls = getattr(D, cls_name)
     rng = random.Random(11)
@@ -923,6 +925,10 @@ def dist_search(cls_name, want_exc=None):
             try:
                 r = d.draw()
             except Exception as e:
+                if any(exc_matches(e, k) for k in skip):
+                    if met is not None:
+                        met.update(k for k in skip if exc_matches(e, k))
+                    continue
                 if want_exc is None or exc_matches(e, want_exc):
                     return {"class": cls_name, "parameters": params, "uniforms": script[:st.n], "failure": "draw raised %s: %s" % (type(e).__name__, e)}
                 continue
@@ -1156,15 +1162,16 @@ def replay_dist(rec):
     names = [cls_name] if cls_name in DIST_GRID else list(DIST_GRID)
     if rec["function"].endswith("_next_gaussian"):
         names = ["DistNormal", "DistLogNormal"]
+    met = set()
     for n in names:
-        f = dist_search(n, want)
+        f = dist_search(n, want, skip=rec.get("known_exceptions") or (), met=met)
         if f:
-            return {"reproduced": True, "input": f, "observed": f["failure"]}
+            return {"reproduced": True, "input": f, "observed": f["failure"], "known_met": sorted(met)}
     if want is None:
         f = dist_purity_search()
         if f:
-            return {"reproduced": True, "input": f, "observed": f["failure"]}
-    return {"reproduced": False, "note": "no failing (parameters, uniforms) found on the extreme-uniform grid"}
+            return {"reproduced": True, "input": f, "observed": f["failure"], "known_met": sorted(met)}
+    return {"reproduced": False, "note": "no failing (parameters, uniforms) found on the extreme-uniform grid", "known_met": sorted(met)}
 
 
 def dist_purity_search():
